@@ -316,3 +316,24 @@ def TwoOpt(mode: int, x: int = 0):
 from pydra.compose import shell as _shell  # noqa: E402
 
 Sh = _shell.define("tool", inputs={"v": _shell.arg(type=str, argstr="-v", position=1)}, name="Sh")
+
+
+@python.define
+def NodeF(x: int, tag: int = 0, fail_on: int = -1) -> int:
+    """fails for one particular input value"""
+    import vf.rec as R
+    R.rec("Node", x, tag)
+    if x == fail_on:
+        raise ValueError("node %d failed on %d" % (tag, x))
+    return x + tag
+
+
+@workflow.define(outputs=["d", "i"])
+def SplitPartialFail(xs: list[int], fail_on: int = -1):
+    """a split node of which one element fails, a node depending on it, and an independent chain"""
+    s = workflow.add(NodeF(tag=1, fail_on=fail_on).split(x=xs), name="s")
+    d = workflow.add(Node(x=s.out, tag=2), name="d")
+    i1 = workflow.add(Node(x=1, tag=3), name="i1")
+    i2 = workflow.add(Node(x=i1.out, tag=4), name="i2")
+    i3 = workflow.add(Node(x=i2.out, tag=5), name="i3")
+    return d.out, i3.out
